@@ -22,10 +22,12 @@ pub struct ConIterOfVec<T: Send + Sync> {
 
 impl<T: Send + Sync> Drop for ConIterOfVec<T> {
     fn drop(&mut self) {
-        let current = self.counter().current();
-        if current <= self.vec_len {
-            let _remaining_vec_to_be_dropped = unsafe { self.split_off_right(current) };
-        }
+        let current = self.counter().current().min(self.vec_len);
+        let _remaining_vec_to_be_dropped = unsafe { self.split_off_right(current) };
+
+        // elements on the left are already moved out; release the buffer without dropping them again
+        let mut left_vec: Vec<T> = unsafe { ManuallyDrop::take(self.vec.get_mut()) };
+        unsafe { left_vec.set_len(0) };
     }
 }
 
